@@ -45,40 +45,18 @@ func (e StdEng) transposeMask(a DenseTensor) {
 		return
 	}
 
-	shape := a.Shape()
-	if len(shape) != 2 {
-		// TODO(poopoothegorilla): currently only two dimensions are implemented
-		return
+	// the mask is moved through a temporary, for every rank (the cycle-following variant that used to
+	// be here handled matrices only and left the masks of higher ranks in the old storage order)
+	orig := a.(*Dense).Mask()
+	tmp := make([]bool, len(orig))
+
+	it := newFlatIterator(a.Info())
+	var j int
+	for i, err := it.Next(); err == nil; i, err = it.Next() {
+		tmp[j] = orig[i]
+		j++
 	}
-	n, m := shape[0], shape[1]
-	mask := a.(*Dense).Mask()
-	size := len(mask)
-
-	track := NewBitMap(size)
-	track.Set(0)
-	track.Set(size - 1)
-
-	for i := 0; i < size; i++ {
-		srci := i
-		if track.IsSet(srci) {
-			continue
-		}
-		srcv := mask[srci]
-		for {
-			oc := srci % n
-			or := (srci - oc) / n
-			desti := oc*m + or
-
-			if track.IsSet(desti) {
-				break
-			}
-			track.Set(desti)
-			destv := mask[desti]
-			mask[desti] = srcv
-			srci = desti
-			srcv = destv
-		}
-	}
+	copy(orig, tmp)
 }
 
 func (e StdEng) denseTranspose1(a DenseTensor, expStrides []int) {
